@@ -46,12 +46,25 @@ def lake_build(targets, timeout=1500):
 
 def prop_theorems(prop):
     """names of all theorems declared in Props/<prop>.lean (these are the obligations)"""
-    path = os.path.join(LEAN, "MirosModel", "Props", prop + ".lean")
-    src = open(path).read()
-    ns = re.search(r"^namespace\s+(\S+)", src, re.M)
-    prefix = ns.group(1) + "." if ns else ""
-    names = re.findall(r"^theorem\s+([^\s:({\[]+)", src, re.M)
-    return [prefix + n for n in names], src
+    import glob
+    out, srcs = [], ""
+    paths = sorted(glob.glob(os.path.join(LEAN, "MirosModel", "Props", prop + "*.lean")))
+    if not paths:
+        raise FileNotFoundError(os.path.join(LEAN, "MirosModel", "Props", prop + ".lean"))
+    for path in paths:
+        src = open(path).read()
+        ns = re.search(r"^namespace\s+(\S+)", src, re.M)
+        prefix = ns.group(1) + "." if ns else ""
+        names = re.findall(r"^theorem\s+([^\s:({\[]+)", src, re.M)
+        out += [prefix + n for n in names]
+        srcs += src
+    return out, srcs
+
+
+def prop_modules(prop):
+    import glob
+    return ["MirosModel.Props." + os.path.basename(p)[:-5]
+            for p in sorted(glob.glob(os.path.join(LEAN, "MirosModel", "Props", prop + "*.lean")))]
 
 
 def strip_comments(src):
@@ -88,7 +101,8 @@ def audit(prop, theorems):
     os.makedirs(d, exist_ok=True)
     path = os.path.join(d, prop + "_%d.lean" % os.getpid())
     with open(path, "w") as f:
-        f.write("import MirosModel.Props.%s\n" % prop)
+        for m in prop_modules(prop):
+            f.write("import %s\n" % m)
         for t in theorems:
             f.write("#print axioms %s\n" % t)
     try:
